@@ -30,8 +30,8 @@ RULE = (
     "delimiters and template_comments=True; exhaustive), pair (every ordered pair of markup kinds with every "
     "combination of the facing markers and of the outer closing/opening markers, with nothing, whitespace or text "
     "between them; exhaustive), random (piece lists of 1..14 pieces: random paddings incl. unicode whitespace, nested "
-    "block comments containing markup, raw bodies containing markup, markup-like text). Every case is checked four "
-    "ways: `finditer` of the compiled rules against matchesOf (match), the real token list against tokenize (tokens), "
+    "block comments containing markup, raw bodies containing markup, markup-like text). Every case is observed at four "
+    "levels, all compared with the model: `finditer` of the compiled rules against matchesOf (match), the real token list against tokenize (tokens), "
     "the parsed node list (classes and retained text) against parse (nodes), the rendered output against the model and against the direct specification spec_render (render). Non-trivial: "
     "some text piece next to markup has whitespace on the facing edge (so the marker decides what is output), or the "
     "case contains a raw / doc / comment piece."
@@ -790,75 +790,91 @@ class StripStream(Stream):
         return obs[0] != case["s"] or obs[1] != case["s"]
 
 
+LEVELS = ("match", "tokens", "nodes", "render")
+IMPLS = {"match": impl_match, "tokens": impl_tokens, "nodes": impl_nodes, "render": impl_render}
+
+
+def canon_level(level, mobs):
+    if level == "match" and isinstance(mobs, dict) and "matches" in mobs:
+        for m in mobs["matches"]:
+            if m.get("kind") == "TAG" and m.get("expr") == "":
+                m["exprStart"] = None
+    if isinstance(mobs, dict) and "err" in mobs and "at" in mobs:
+        return {"err": mobs["err"]}
+    return mobs
+
+
+def oracle_level(level, case, obs):
+    """the property stated directly on one level of observation"""
+    ps = case["ps"]
+    if level == "render":
+        if "err" in obs:
+            kinds = ",".join(sorted({kind_of(p) for p in ps if p[0] != "text"}))
+            return (f"render|raises-{obs['err']}|kinds={kinds}", f"rendering a template of text/output/raw/comment/doc/liquid pieces raised {obs['err']}")
+        exp = spec_render(ps)
+        if obs["out"] != exp:
+            return (mismatch_signature(ps, obs["out"], "render"), f"expected {exp!r}, got {obs['out']!r}")
+    elif level == "nodes":
+        if "err" in obs:
+            return None  # reported by the render level
+        # text nodes = the specification (comment and doc nodes carry text but are of classes that render nothing)
+        got = [n[1] for n in obs["nodes"] if n[0] == "text"]
+        exp = spec_content_tokens(ps)
+        if "".join(got) != "".join(exp):
+            cc = [v or "" for v in spec_content_contribs(ps)]
+            return (mismatch_signature(ps, "".join(got), "nodes", cc), f"content nodes {got!r}, expected {exp!r}")
+    elif level == "tokens":
+        if "err" in obs:
+            return (f"tokens|raises-{obs['err']}", f"tokenizing raised {obs['err']}")
+        got = [t[1] for t in obs["tokens"] if t[0] == "content"]
+        exp = spec_content_tokens(ps)
+        # (how the text is cut into content tokens is the model correspondence's business, not the property's)
+        if "".join(got) != "".join(exp):
+            cc = [v or "" for v in spec_content_contribs(ps)]
+            return (mismatch_signature(ps, "".join(got), "tokens", cc), f"content tokens {got!r}, expected {exp!r}")
+        src = assemble(delims(case), ps)
+        for kind, value, start in obs["tokens"]:
+            # every tag / expression / output token is a slice of the source at its start index
+            if kind in ("tag", "expression", "output") and src[start : start + len(value)] != value:
+                return (f"tokens|start-index|{kind}", f"token {kind} {value!r} is not at offset {start}")
+    return None
+
+
 class _PieceStream(Stream):
-    """three views of one case list: level in {match, tokens, render}"""
+    """One case family; every case is observed at four levels (regex matches, tokens, parsed nodes, rendered
+    output), all four compared with the model, the last three checked by the direct oracle."""
 
     exhaustive = False
     parallel = False  # the implementation side is a few seconds in one process; forking pools costs more
-    level = "render"
     family = "triple"
 
-    def __init__(self, family, level):
+    def __init__(self, family):
         self.family = family
-        self.level = level
-        self.name = f"{family}_{level}"
+        self.name = family
         self.exhaustive = family in ("triple", "pair")
 
     def cases(self, ctx):
-        key = f"_c10_{self.family}"
-        if not hasattr(ctx, key):
-            cs = {"triple": triple_cases, "pair": pair_cases, "random": random_cases}[self.family](ctx)
-            setattr(ctx, key, cs)
-        return getattr(ctx, key)
+        return {"triple": triple_cases, "pair": pair_cases, "random": random_cases}[self.family](ctx)
 
     def impl(self, case):
-        return {"match": impl_match, "tokens": impl_tokens, "nodes": impl_nodes, "render": impl_render}[self.level](case)
+        return {lvl: IMPLS[lvl](case) for lvl in LEVELS}
 
     def line(self, case):
-        return ["c10_" + self.level, delims(case), case["ps"]]
+        return ["c10_all", delims(case), case["ps"]]
 
     def canon_model(self, case, mobs):
         mobs = unesc(mobs)
-        if self.level == "match" and isinstance(mobs, dict) and "matches" in mobs:
-            for m in mobs["matches"]:
-                if m.get("kind") == "TAG" and m.get("expr") == "":
-                    m["exprStart"] = None
-        if isinstance(mobs, dict) and "err" in mobs and "at" in mobs:
-            return {"err": mobs["err"]}
+        if isinstance(mobs, dict) and all(l in mobs for l in LEVELS):
+            return {lvl: canon_level(lvl, mobs[lvl]) for lvl in LEVELS}
         return mobs
 
     def oracle(self, case, obs):
-        ps = case["ps"]
-        if self.level == "render":
-            if "err" in obs:
-                kinds = ",".join(sorted({kind_of(p) for p in ps if p[0] != "text"}))
-                return (f"render|raises-{obs['err']}|kinds={kinds}", f"rendering a template of text/output/raw/comment/doc/liquid pieces raised {obs['err']}")
-            exp = spec_render(ps)
-            if obs["out"] != exp:
-                return (mismatch_signature(ps, obs["out"], "render"), f"expected {exp!r}, got {obs['out']!r}")
-        elif self.level == "nodes":
-            if "err" in obs:
-                return None  # reported by the render level
-            # comment and doc nodes carry text but must be of a class that renders nothing; text nodes = the specification
-            got = [n[1] for n in obs["nodes"] if n[0] == "text"]
-            exp = [v for p, v in zip(ps, spec_content_contribs(ps)) if v is not None and (v or p[0] == "raw")]
-            if "".join(got) != "".join(exp):
-                cc = [v or "" for v in spec_content_contribs(ps)]
-                return (mismatch_signature(ps, "".join(got), "nodes", cc), f"content nodes {got!r}, expected {exp!r}")
-        elif self.level == "tokens":
-            if "err" in obs:
-                return (f"tokens|raises-{obs['err']}", f"tokenizing raised {obs['err']}")
-            got = [t[1] for t in obs["tokens"] if t[0] == "content"]
-            exp = spec_content_tokens(ps)
-            # (how the text is cut into content tokens is the model correspondence's business, not the property's)
-            if "".join(got) != "".join(exp):
-                cc = [v or "" for v in spec_content_contribs(ps)]
-                return (mismatch_signature(ps, "".join(got), "tokens", cc), f"content tokens {got!r}, expected {exp!r}")
-            src = assemble(delims(case), ps)
-            for kind, value, start in obs["tokens"]:
-                # every token except stripped text and block-comment text is a slice of the source at its start index
-                if kind in ("tag", "expression", "output") and src[start : start + len(value)] != value:
-                    return (f"tokens|start-index|{kind}", f"token {kind} {value!r} is not at offset {start}")
+        if not isinstance(obs, dict) or "render" not in obs:
+            return None
+        for lvl in ("render", "nodes", "tokens"):
+            v = oracle_level(lvl, case, obs[lvl])
+            if v is not None:
+                return v
         return None
 
     def nontrivial(self, case, obs):
@@ -866,7 +882,7 @@ class _PieceStream(Stream):
         return facing_whitespace(ps) or any(kind_of(p) in ("raw", "doc", "comment", "short", "inline") for p in ps)
 
     def tags(self, case, obs):
-        return case_tags(case) if self.level == "render" else []
+        return case_tags(case)
 
     def shrink_candidates(self, case):
         ps = case["ps"]
@@ -924,6 +940,5 @@ class _PieceStream(Stream):
 def streams(ctx):
     out = [SpacesStream(), StripStream()]
     for fam in ("triple", "pair", "random"):
-        for lvl in ("match", "tokens", "nodes", "render"):
-            out.append(_PieceStream(fam, lvl))
+        out.append(_PieceStream(fam))
     return out
